@@ -1,4 +1,23 @@
-// harnesses for this file are added below
+// Executable mirrors for lightning/src/routing/router.rs
 use super::*;
 include!("/verif/hooks/common.rs");
-pub fn replay(_name: &str, _a: &[u128]) -> Option<Outcome> { None }
+
+// u16/compute_fees == advertised policy formula
+pub fn contract_compute_fees(amount: u64, base: u32, prop: u32) -> Outcome {
+	let spec = base as u128 + amount as u128 * prop as u128 / 1_000_000;
+	let overflow = amount as u128 * prop as u128 > u64::MAX as u128 || spec > u64::MAX as u128;
+	match compute_fees(amount, RoutingFees { base_msat: base, proportional_millionths: prop }) {
+		Some(f) => if !overflow && f as u128 == spec { Outcome::Holds } else { Outcome::Violated },
+		None => if overflow { Outcome::Holds } else { Outcome::Violated },
+	}
+}
+pub fn replay(name: &str, a: &[u128]) -> Option<Outcome> {
+	Some(match name {
+		"compute_fees" => contract_compute_fees(a[0] as u64, a[1] as u32, a[2] as u32),
+		_ => return None,
+	})
+}
+#[cfg(kani)]
+mod harnesses {
+	use super::*;
+}
